@@ -97,7 +97,7 @@ func init() {
 		QuickSec: 25, ThoroughSec: 200,
 		Assumptions: []string{
 			"signature table written from the formats' published magic numbers (gen/sniff.go); JPEG 2000's signature box counts as JPEG because the library's own test suite pins that answer",
-			"'only if' is judged as: the reported type's signature is carried by the first 24 bytes and is not ruled out by the documented precedence (CR2, RW2 over TIFF; CR3, AVIF, HEIF by brand); overlaps the property does not rank (CRW vs TIFF) accept either",
+			"'only if' is judged as: the reported type's signature is carried by the first 24 bytes and is not ruled out by the documented precedence (CR2, RW2 over TIFF; CR3, AVIF, HEIF by brand); the longer signature wins over the four TIFF bytes (CR2, RW2, CRW); AVIF and HEIF are not ranked against each other",
 			"canonical headers and their 24x256 single-byte perturbations are a fixed corpus with a reference model (corpus enumeration, not schedule search); random headers, suffixes, deliveries, reader kinds and short streams are sampled by seed",
 			"non-consumption is observable only through a harness-owned bufio.Reader of at least 24 bytes",
 		},
